@@ -304,6 +304,47 @@ pub fn scenarios(prop: &str, thorough: bool) -> Vec<Scenario> {
                     }
                 }
             }
+            // (EE) two or three edits between two ticks: the status handed to the run must be the
+            // strongest one since the last tick, not the one of the last edit
+            {
+                let texts: &[&str] = &["", "a", "ab", "b", "bc", "c", "abx"];
+                for pool in [1usize, 2] {
+                    if pool == 2 && !thorough {
+                        continue;
+                    }
+                    for t0 in texts {
+                        for t1 in texts {
+                            for t2 in texts {
+                                if t0 == t1 || t1 == t2 {
+                                    continue;
+                                }
+                                let mut variants: Vec<Vec<UOp>> = vec![vec![UOp::Reparse(0, t0), UOp::Tick, UOp::Reparse(0, t1), UOp::Reparse(0, t2), UOp::Drain(6)]];
+                                if thorough {
+                                    for t3 in texts {
+                                        if t3 != t2 && t3.starts_with(*t2) {
+                                            variants.push(vec![UOp::Reparse(0, t0), UOp::Tick, UOp::Reparse(0, t1), UOp::Reparse(0, t2), UOp::Reparse(0, t3), UOp::Drain(6)]);
+                                        }
+                                    }
+                                }
+                                for (vi, u) in variants.into_iter().enumerate() {
+                                    v.push(Scenario {
+                                        name: format!("EE/pool{pool}/{t0:?}>{t1:?}+{t2:?}/v{vi}"),
+                                        pool_threads: pool,
+                                        columns: 1,
+                                        preload: vec![it(100, "a"), it(101, "ab"), it(102, "b"), it(103, "bc"), it(104, "xbxc"), it(105, "c"), it(106, "ca"), it(107, "abx"), it(108, "xaxb")],
+                                        u,
+                                        injectors: vec![],
+                                        slots: 0,
+                                        bound: 0,
+                                        fine: true,
+                                        flag_points: false,
+                                    });
+                                }
+                            }
+                        }
+                    }
+                }
+            }
             // (Ap) appending edits of every shape: each start text (plain, negated, anchored,
             // escaped, multi-word with a negated word first or last) extended by each suffix kind
             // (same word, new word, new negated word, anchor, blank, backslash); the from-scratch
@@ -618,12 +659,40 @@ pub fn scenarios(prop: &str, thorough: bool) -> Vec<Scenario> {
         }
         _ => machinery_failure(&format!("no scenarios for {prop}")),
     }
+    if prop == "C20" {
+        // "at every point" includes the middle of a background run: short scripts with a
+        // non-empty pattern and items, explored with preemptions, so that the count is read while
+        // the run is suspended inside its scan, its rescoring loop or its sort
+        let scripts: Vec<Vec<UOp>> = vec![
+            vec![UOp::Reparse(0, "a"), UOp::TakeHandle, UOp::PushHandle(0, it(1, "a")), UOp::Tick, UOp::Tick, UOp::CloneHandle(0), UOp::Tick],
+            vec![UOp::Reparse(0, "a"), UOp::Tick, UOp::Restart(false), UOp::TakeHandle, UOp::PushHandle(0, it(1, "a")), UOp::Tick, UOp::Tick, UOp::DropHandle(0)],
+            vec![UOp::Reparse(0, "a"), UOp::Tick, UOp::Restart(true), UOp::TakeHandle, UOp::PushHandle(0, it(1, "ab")), UOp::Tick, UOp::Tick, UOp::DropHandle(0)],
+            vec![UOp::TakeHandle, UOp::PushHandle(0, it(1, "ab")), UOp::Reparse(0, "a"), UOp::Tick, UOp::Reparse(0, "ab"), UOp::Tick, UOp::Tick],
+            vec![UOp::TakeHandle, UOp::Reparse(0, "a"), UOp::Tick, UOp::Reparse(0, "b"), UOp::Tick, UOp::DropHandle(0), UOp::Tick],
+        ];
+        for pool in [1usize, 2] {
+            for (si, u) in scripts.iter().enumerate() {
+                v.push(Scenario {
+                    name: format!("Bs/C20s/pool{pool}/s{si}"),
+                    pool_threads: pool,
+                    columns: 1,
+                    preload: vec![it(100, "a"), it(101, "ab"), it(102, "b")],
+                    u: u.clone(),
+                    injectors: vec![],
+                    slots: 0,
+                    bound: 0,
+                    fine: true,
+                    flag_points: false,
+                });
+            }
+        }
+    }
     // preemption bounds: the large family-A / family-B scripts are explored with fewer preemptions
     // than the small ones
     for s in v.iter_mut() {
         s.flag_points = prop == "C13";
         let small = s.name.starts_with("As/") || s.name.starts_with("Bs/");
-        if small && !thorough {
+        if small && !thorough && !s.name.contains("C20s") {
             s.fine = false;
         }
         if s.name.starts_with("Big/") {
@@ -634,8 +703,22 @@ pub fn scenarios(prop: &str, thorough: bool) -> Vec<Scenario> {
         }
         s.bound = match (prop, thorough) {
             ("C13", false) => 1,
-            ("C13", true) => 2,
-            ("C20", _) | ("C09", _) => 0,
+            ("C13", true) => 3,
+            ("C09", _) => 0,
+            ("C20", false) => {
+                if small {
+                    1
+                } else {
+                    0
+                }
+            }
+            ("C20", true) => {
+                if small {
+                    2
+                } else {
+                    0
+                }
+            }
             ("C11", false) | ("C07", false) => {
                 if small {
                     1
@@ -672,8 +755,10 @@ pub fn scenarios(prop: &str, thorough: bool) -> Vec<Scenario> {
 fn bounds(prop: &str, thorough: bool) -> Vec<u32> {
     match (prop, thorough) {
         ("C13", false) => vec![0, 1],
-        ("C13", true) => vec![0, 1, 2],
-        ("C07", false) | ("C20", _) => vec![0],
+        ("C13", true) => vec![0, 1, 2, 3],
+        ("C07", false) => vec![0],
+        ("C20", false) => vec![0, 1],
+        ("C20", true) => vec![0, 1, 2],
         ("C07", true) => vec![0, 1],
         (_, false) => vec![0, 1],
         (_, true) => vec![0, 1, 2],
